@@ -160,4 +160,73 @@ example : OpsOK 2 0 [.block 0 0 1000 [false, false] [[1, 2, 3], [4, 5, 6]], .gad
     simp only [List.mem_cons, List.not_mem_nil, or_false] at ho
     rcases ho with rfl | rfl | rfl <;> trivial
 
+theorem keepsSettings_blocks {α} (f : α → Op) (hf : ∀ a, ∃ x t p sg d, f a = .block x t p sg d) (l : List α) :
+    ∀ o ∈ l.map f, KeepsSettings o := by
+  intro o ho
+  obtain ⟨a, _, rfl⟩ := List.mem_map.mp ho
+  obtain ⟨x, t, p, sg, d, h⟩ := hf a
+  rw [h]; trivial
+
+/-- **Lancero, unconditionally: from the card's bytes to every channel's file.**  For every geometry, every
+list of well-formed frames, EVERY schedule of reads, every mixer state, any restored trigger settings and
+valid record lengths: the reader does not crash, the source processes the resulting blocks without a panic,
+and every channel's LJH 2.2 file over that period reads back as exactly the channel's published records. -/
+theorem lancero_card_to_files {σ ρ : Type} (fops : C04.FloatOps σ ρ) (zero : σ) (scaleOf : Nat → σ)
+    (g : C04.Geom) (hg : C04.geomOK g = true) (frames : List C04.Frame)
+    (hwf : ∀ fr ∈ frames, C04.frameWF g fr = true) (ticks : List (Nat × Int))
+    (st : C04.DState σ) (hnext : 0 ≤ st.next)
+    (mk : C04.Block → Int × Int × List Bool)
+    (npre nsamp : Int) (hlen : 3 ≤ npre ∧ npre < nsamp) (saved : List (Nat × Trig.TS))
+    (zts : List (List (Int × Int)))
+    (hzt : ∀ (j : Nat) (p : Int), -1 ≤ Pipe.ztOf (zts[j]?.getD []) p ∧ Pipe.ztOf (zts[j]?.getD []) p ≤ 1) :
+    ∃ bufs, C04.runReader g { pending := [], future := C04.encFrames frames } false ticks = .ok bufs ∧
+      let blocks := C04.blocksOf (C04.runSteps fops zero scaleOf g st (bufs.map C04.Step.buf))
+      ∃ res, runOps zts (prepare g.nchan npre nsamp saved) (blocks.map (lblockOp mk)) = some res ∧
+        ∀ (j : Nat), j < g.nchan →
+          (∀ r ∈ chanRecs j res, (r.data.length : Int) = nsamp ∧ r.npre = npre) ∧
+          ∀ (p : C05.Params) (hdr : C05.Bytes), p.nsamp = nsamp →
+          ∀ (batches : List (List C05.W22)), batches.flatten = (chanRecs j res).map toW22 →
+            let recs := chanRecs j res
+            let fin := C05.run (C05.fmt22 p hdr) {} (fileOps batches)
+            (recs = [] → C05.fileOf fin = none) ∧
+            (recs ≠ [] → ∃ file, C05.fileOf fin = some file ∧ file.take hdr.length = hdr ∧
+              C05.parseBody (C05.parseLJH22 p.nsamp.toNat 2) (file.drop hdr.length) =
+                some (recs.map fun r => C05.expect22 p.subdiv p.suboff (toW22 r)) ∧
+              file.length = hdr.length + recs.length * (16 + p.nsamp.toNat * 2)) := by
+  obtain ⟨bufs, hrun, _, hrest⟩ := C04.C04_chunking_independent fops zero scaleOf g hg frames hwf ticks st
+  obtain ⟨_, _, hcont, _, hshape, _⟩ := hrest
+  refine ⟨bufs, hrun, ?_⟩
+  intro blocks
+  exact prepared_source_to_ljh22_file g.nchan npre nsamp saved hlen zts hzt _ st.next
+    (lancero_blocks_opsOK mk g _ st.next hnext hshape hcont)
+    (keepsSettings_blocks (lblockOp mk) (fun b => ⟨_, _, _, _, _, rfl⟩) blocks)
+
+/-- **Abaco, unconditionally: from the packet history to every channel's file.** -/
+theorem abaco_packets_to_files (fpp : Nat) (L : List C03.GL) (f0 : Int) (hf0 : 0 ≤ f0)
+    (H : List (List (List C03.Pkt))) (gs : List C03.Group) (perms : List (List Nat))
+    (hv : C03.validIn fpp L H = true) (hi : C03.InitOK L gs) (hp : C03.PermsOK L.length H perms)
+    (s' : C03.St) (outs : List (Nat × C03.Block))
+    (hrun : C03.runFrom 0 (C03.startSt gs f0) H perms = .ok (s', outs))
+    (mk : C03.Block → Int × Int × List Bool)
+    (npre nsamp : Int) (hlen : 3 ≤ npre ∧ npre < nsamp) (saved : List (Nat × Trig.TS))
+    (zts : List (List (Int × Int)))
+    (hzt : ∀ (j : Nat) (p : Int), -1 ≤ Pipe.ztOf (zts[j]?.getD []) p ∧ Pipe.ztOf (zts[j]?.getD []) p ≤ 1) :
+    ∃ res, runOps zts (prepare ((L.map (·.nchan)).sum) npre nsamp saved) ((outs.map (·.2)).map (blockOp mk)) = some res ∧
+      ∀ (j : Nat), j < (L.map (·.nchan)).sum →
+        (∀ r ∈ chanRecs j res, (r.data.length : Int) = nsamp ∧ r.npre = npre) ∧
+        ∀ (p : C05.Params) (hdr : C05.Bytes), p.nsamp = nsamp →
+        ∀ (batches : List (List C05.W22)), batches.flatten = (chanRecs j res).map toW22 →
+          let recs := chanRecs j res
+          let fin := C05.run (C05.fmt22 p hdr) {} (fileOps batches)
+          (recs = [] → C05.fileOf fin = none) ∧
+          (recs ≠ [] → ∃ file, C05.fileOf fin = some file ∧ file.take hdr.length = hdr ∧
+            C05.parseBody (C05.parseLJH22 p.nsamp.toNat 2) (file.drop hdr.length) =
+              some (recs.map fun r => C05.expect22 p.subdiv p.suboff (toW22 r)) ∧
+            file.length = hdr.length + recs.length * (16 + p.nsamp.toNat * 2)) := by
+  have h1 := (C03.C03_frames_contiguous fpp L f0 H gs perms hv hi hp s' outs hrun).1
+  have h2 := C03.C03_groups_aligned fpp L f0 H gs perms hv hi hp s' outs hrun
+  exact prepared_source_to_ljh22_file _ npre nsamp saved hlen zts hzt _ f0
+    (blocks_opsOK mk L _ f0 hf0 h2 h1)
+    (keepsSettings_blocks (blockOp mk) (fun b => ⟨_, _, _, _, _, rfl⟩) (outs.map (·.2)))
+
 end DastardV.Compose
